@@ -733,7 +733,9 @@ def lot_vectors_sparse(
     singular_values = None
     components = None
 
-    memmap_filename = os.path.join(tempfile.mkdtemp(dir=cachedir), "lot_tmp_memmap.dat")
+    # removed together with its contents by cleanup() below, or when this object is released if a block raises
+    memmap_directory = tempfile.TemporaryDirectory(dir=cachedir)
+    memmap_filename = os.path.join(memmap_directory.name, "lot_tmp_memmap.dat")
     saved_blocks = np.memmap(
         memmap_filename,
         mode="w+",
@@ -783,7 +785,7 @@ def lot_vectors_sparse(
     )
     result = saved_blocks @ components.T
     del saved_blocks
-    os.remove(memmap_filename)
+    memmap_directory.cleanup()
 
     return result, components
 
@@ -912,7 +914,9 @@ def lot_vectors_dense(
     singular_values = None
     components = None
 
-    memmap_filename = os.path.join(tempfile.mkdtemp(dir=cachedir), "lot_tmp_memmap.dat")
+    # removed together with its contents by cleanup() below, or when this object is released if a block raises
+    memmap_directory = tempfile.TemporaryDirectory(dir=cachedir)
+    memmap_filename = os.path.join(memmap_directory.name, "lot_tmp_memmap.dat")
     saved_blocks = np.memmap(
         memmap_filename,
         mode="w+",
@@ -962,7 +966,7 @@ def lot_vectors_dense(
     )
     result = saved_blocks @ components.T
     del saved_blocks
-    os.remove(memmap_filename)
+    memmap_directory.cleanup()
 
     return result, components
 
@@ -1107,7 +1111,9 @@ def lot_vectors_dense_generator(
     singular_values = None
     components = None
 
-    memmap_filename = os.path.join(tempfile.mkdtemp(dir=cachedir), "lot_tmp_memmap.dat")
+    # removed together with its contents by cleanup() below, or when this object is released if a block raises
+    memmap_directory = tempfile.TemporaryDirectory(dir=cachedir)
+    memmap_filename = os.path.join(memmap_directory.name, "lot_tmp_memmap.dat")
     saved_blocks = np.memmap(
         memmap_filename,
         mode="w+",
@@ -1177,7 +1183,7 @@ def lot_vectors_dense_generator(
     )
     result = saved_blocks @ components.T
     del saved_blocks
-    os.remove(memmap_filename)
+    memmap_directory.cleanup()
 
     return result, components
 
@@ -1314,7 +1320,9 @@ def sinkhorn_vectors_sparse(
     singular_values = None
     components = None
 
-    memmap_filename = os.path.join(tempfile.mkdtemp(dir=cachedir), "lot_tmp_memmap.dat")
+    # removed together with its contents by cleanup() below, or when this object is released if a block raises
+    memmap_directory = tempfile.TemporaryDirectory(dir=cachedir)
+    memmap_filename = os.path.join(memmap_directory.name, "lot_tmp_memmap.dat")
     saved_blocks = np.memmap(
         memmap_filename,
         mode="w+",
@@ -1377,7 +1385,7 @@ def sinkhorn_vectors_sparse(
     )
     result = saved_blocks @ components.T
     del saved_blocks
-    os.remove(memmap_filename)
+    memmap_directory.cleanup()
 
     return result, components
 
